@@ -4,6 +4,7 @@
 #include "draco/compression/encode.h"
 #include "draco/compression/expert_encode.h"
 #include "geom_text.h"
+#include "meta_text.h"
 
 using namespace draco;
 
@@ -65,6 +66,11 @@ VH_OP(enc) {
   size_t pos = sep + 1;
   bool is_mesh = false;
   std::unique_ptr<PointCloud> pc = vh::parse_geometry(a, pos, &is_mesh);
+  if (o.count("meta")) {
+    auto gm = vh::parse_geometry_metadata(o["meta"]);
+    if (!gm) return "bad-op";
+    pc->AddMetadata(std::move(gm));
+  }
   EncoderBuffer buf;
   Status st;
   size_t nep = 0, nef = 0;
@@ -108,13 +114,15 @@ static std::string decode_bytes(const std::vector<uint8_t> &d, const std::string
     auto r = dec.DecodeMeshFromBuffer(&b);
     if (!r.ok()) return r.status().code() == Status::UNKNOWN_VERSION ? "err-version" : "err";
     std::unique_ptr<Mesh> m = std::move(r).value();
-    return "ok " + std::to_string(static_cast<int64_t>(d.size()) - b.remaining_size()) + " " + vh::dump_geometry(m.get(), m.get());
+    return "ok " + std::to_string(static_cast<int64_t>(d.size()) - b.remaining_size()) + " " + vh::dump_geometry(m.get(), m.get()) +
+           (m->GetMetadata() ? " meta " + vh::dump_geometry_metadata(*m->GetMetadata()) : std::string());
   }
   if (t.value() == POINT_CLOUD) {
     auto r = dec.DecodePointCloudFromBuffer(&b);
     if (!r.ok()) return r.status().code() == Status::UNKNOWN_VERSION ? "err-version" : "err";
     std::unique_ptr<PointCloud> p = std::move(r).value();
-    return "ok " + std::to_string(static_cast<int64_t>(d.size()) - b.remaining_size()) + " " + vh::dump_geometry(p.get(), nullptr);
+    return "ok " + std::to_string(static_cast<int64_t>(d.size()) - b.remaining_size()) + " " + vh::dump_geometry(p.get(), nullptr) +
+           (p->GetMetadata() ? " meta " + vh::dump_geometry_metadata(*p->GetMetadata()) : std::string());
   }
   return "err";
 }
